@@ -198,6 +198,10 @@ def run_engine(ctx: Ctx) -> dict:
                       ("chain2_2x1_all", "&a,@b")]:
         if nm in by_name:
             jobs.append((by_name[nm], 0, boxed))
+    # a genuine static None as the last positional argument
+    for nm, v in [("chain2_2x1_all", "!a,!b"), ("diamond_2x1_src_sink", "!s,!k")]:
+        if nm in by_name:
+            jobs.append((by_name[nm], 0, v))
     # the recorded job is the second one of its process, after a job with the same task names and other callables
     for nm, v in [("chain2_2x1_all", "2nd+~a,~b"), ("multiout_2x1_sinks", "2nd+~g,~u,~v"), ("diamond_1x2_sink", "2nd+~s,~m1,~m2,~k")]:
         if nm in by_name:
@@ -273,7 +277,7 @@ def report(ctx: Ctx, pid: str) -> None:
             if mine:
                 names = sorted({n for _, n in mine})
                 key = "trace:" + "+".join(names)
-                plain_none = bool(t["none_tasks"]) and all(tok and tok[0] not in "~@^&" for tok in t["none_tasks"].split(",")) \
+                plain_none = bool(t["none_tasks"]) and all(tok and tok[0] not in "~@^&!" for tok in t["none_tasks"].split(",")) \
                     and not t["none_tasks"].startswith("2nd+")
                 if plain_none and set(names) <= NONE_VALUED_EXPECTED.get(pid, set()):
                     # the probe for a requested output whose value is None fails in exactly the recorded way
